@@ -236,7 +236,7 @@ func runC09(r *Run, variants []string, mode string) {
 		if !cw.waitSeen && started {
 			pacing, pendingNet := false, false
 			for _, g := range clientGoroutines() {
-				if strings.Contains(g, "handleData") {
+				if strings.Contains(g, "handleData") || strings.Contains(g, "verifsim.(*Run).Hook") {
 					pacing = true
 				}
 			}
